@@ -57,6 +57,7 @@ type Evidence struct {
 	Violations    int      `json:"violations"`
 	KnownFindings []string `json:"known_findings,omitempty"`
 	Inconclusive  []string `json:"inconclusive,omitempty"`
+	Incomplete    []string `json:"incomplete,omitempty"`
 
 	funcs map[string]bool
 	hidx  map[string]int
